@@ -525,3 +525,46 @@ func VerifHarness_RelFrame(kind, fork uint64) {
 		verifCompareTraces(lgA, lgG, "C01")
 	}
 }
+
+func init() {
+	verifHarnesses["VerifHarness_RelTables"] = VerifHarness_RelTables
+}
+
+// VerifHarness_RelTables: for every fork Frontier..Shanghai the instruction table the
+// artela interpreter selects is compared entry by entry with the table the go-ethereum
+// v1.12.0 interpreter selects: handler, constant gas, dynamic gas function, memory-size
+// function and stack bounds of all 256 opcode bytes (0xe0-0xe7 must be Artela's journal
+// instructions with the flat dynamic fee and undefined upstream).
+func VerifHarness_RelTables() {
+	for fork := uint64(0); fork <= 10; fork++ {
+		cfg := verifChainConfig(fork)
+		if fork == 9 {
+			cfg = verifChainConfig(8) // the Merge rules are selected by the block's random field
+		}
+		rnd := common.Hash{1}
+		var rp *common.Hash
+		if fork >= 9 {
+			rp = &rnd
+		}
+		evmA := NewEVM(BlockContext{BlockNumber: big.NewInt(0), Random: rp}, TxContext{}, newVerifStateDB(), cfg, Config{})
+		evmG := ethvm.NewEVM(ethvm.BlockContext{BlockNumber: big.NewInt(0), Random: rp}, ethvm.TxContext{}, newVerifStateDB(), cfg, ethvm.Config{})
+		tA := evmA.Interpreter().table
+		want, _ := verifTable(fork)
+		verifAssert(tA == want, "C01: the interpreter selects the fork's own instruction table")
+		for b := 0; b < 256; b++ {
+			o := tA[b]
+			ex, cg, dg, mn, mx, ms := evmG.Interpreter().VerifOp(byte(b))
+			if b >= int(RSVJNAL) && b <= int(VRJNAL) {
+				verifAssert(verifFuncName(ex) == "opUndefined", "C01: 0xe0-0xe7 are undefined upstream")
+				verifAssert(o.constantGas == 0 && o.dynamicGas != nil && o.memorySize == nil, "C12: journal instructions are present on every fork with a dynamic flat fee")
+				continue
+			}
+			verifAssert(verifFuncName(o.execute) == verifFuncName(ex), "C01: same handler for every opcode byte on every fork")
+			verifAssert(o.constantGas == cg, "C02: same constant gas for every opcode byte on every fork")
+			verifAssert(verifFuncName(o.dynamicGas) == verifFuncName(dg), "C02: same dynamic gas function for every opcode byte on every fork")
+			verifAssert(verifFuncName(o.memorySize) == verifFuncName(ms), "C02: same memory-size function for every opcode byte on every fork")
+			verifAssert(o.minStack == mn && o.maxStack == mx, "C01: same stack bounds for every opcode byte on every fork")
+		}
+	}
+	verifReach("tables-compared")
+}
